@@ -50,6 +50,17 @@ func oneOfGrid() []*spec.Spec {
 						s.Members = []spec.Member{{KeyI: keysI[0], Type: a}, {KeyI: keysI[1], Type: b}}
 					}
 					out = append(out, s)
+					if inlined && form == "map" && kind == spec.KOneOfS && keysS[0] != "" {
+						// the members' own discriminator properties as enums (plain, and over a named string type)
+						for _, ek := range []string{spec.KEnumS, spec.KTypedEnumS} {
+							a2, b2 := *a, *b
+							a2.Props = append([]spec.Prop(nil), a.Props...)
+							b2.Props = append([]spec.Prop(nil), b.Props...)
+							a2.Props[len(a2.Props)-1].Type = &spec.Spec{Kind: ek, Enum: []spec.EnumVal{{S: keysS[0]}}}
+							b2.Props[len(b2.Props)-1].Type = &spec.Spec{Kind: ek, Enum: []spec.EnumVal{{S: keysS[1]}}}
+							out = append(out, &spec.Spec{Kind: kind, Discriminator: disc, Inlined: true, Members: []spec.Member{{KeyS: keysS[0], Type: &a2}, {KeyS: keysS[1], Type: &b2}}})
+						}
+					}
 				}
 			}
 		}
